@@ -23,9 +23,23 @@ def _variants(evname, role):
     if n == 6:
         return [('rq', dec(P.AAssociateRqPDU, e2.std_rq()))]
     if n == 10:
+        CT = '1.2.840.10008.5.1.4.1.1.2'
+        data = _store_data()
+        cmdpdu = ('pdu', e2.pdata(3, 3, e2.store_cmd()))
         if evname.endswith('c'):
-            return [('echo-complete', dec(P.PDataTfPDU, e2.pdata(1, 3, e2.echo_cmd())))]
-        return [('cmd-fragment', dec(P.PDataTfPDU, e2.pdata(1, 1, e2.echo_cmd()[:20])))]
+            # third element: how the provider got where it is (configuration; what it processed in Sta6 before the cell's state
+            # is set) - the decoder is shared by DT-2 and AR-6 and lives across PDUs, across the release request, and is
+            # configured through attributes assigned after construction
+            return [('echo-complete', dec(P.PDataTfPDU, e2.pdata(1, 3, e2.echo_cmd()))),
+                    ('store-last-data-fragment', dec(P.PDataTfPDU, e2.pdata(3, 2, data)), {'prefix': [cmdpdu], 'expect_data': data}),
+                    ('store-last-data-fragment-into-file', dec(P.PDataTfPDU, e2.pdata(3, 2, data)),
+                     {'prefix': [cmdpdu], 'store_in_file': [CT], 'expect_data': data}),
+                    ('store-last-data-fragment-release-requested-meanwhile', dec(P.PDataTfPDU, e2.pdata(3, 2, data)),
+                     {'prefix': [cmdpdu, ('user', ('release_rq',))], 'expect_data': data}),
+                    ('store-second-of-two-data-fragments-into-file', dec(P.PDataTfPDU, e2.pdata(3, 2, data[40:])),
+                     {'prefix': [cmdpdu, ('pdu', e2.pdata(3, 0, data[:40]))], 'store_in_file': [CT], 'expect_data': data})]
+        return [('cmd-fragment', dec(P.PDataTfPDU, e2.pdata(1, 1, e2.echo_cmd()[:20]))),
+                ('store-data-fragment-not-last-into-file', dec(P.PDataTfPDU, e2.pdata(3, 0, data[:40])), {'prefix': [cmdpdu], 'store_in_file': [CT]})]
     if n == 12:
         return [('release-rq', dec(P.AReleasePDUBase if False else P.AReleaseRqPDU, e2.std_release()))]
     if n == 13:
@@ -56,6 +70,11 @@ def _variants(evname, role):
             ('slot-pdata', dec(P.PDataTfPDU, e2.pdata(1, 3, e2.echo_cmd())))]
 
 
+def _store_data():
+    from .. import dsgen
+    return dsgen.enc(dsgen.make('b', 3), '1.2.840.10008.1.2')
+
+
 ALL_EVENTS = ['Evt%d' % i for i in range(1, 20) if i != 10] + ['Evt10c', 'Evt10p']
 
 
@@ -72,8 +91,12 @@ def run_cell(cell):
     from pynetdicom2 import fsm
     sta, role, artim, evname, vi, expect = cell
     viol = []
-    label, build = _variants(evname, role)[vi]
-    env = e2.Env(role, [])
+    var = _variants(evname, role)[vi]
+    label, build = var[0], var[1]
+    cfg = var[2] if len(var) > 2 else {}
+    import io
+    env = e2.Env(role, [], store_in_file=frozenset(cfg.get('store_in_file', ())),
+                 get_file_cb=(lambda ctx, cs: (io.BytesIO(), 0)) if cfg.get('store_in_file') else None)
     prov = env.prov
     sm = prov.state_machine
     prov.event.clear()
@@ -83,6 +106,18 @@ def run_cell(cell):
         env.ever_socket = False
     elif prov.dul_socket is None:
         prov.dul_socket = env.new_socket()
+    if cfg.get('prefix') and sta in (6, 7):
+        # what the provider processed in the data transfer state before the cell under test
+        from pynetdicom2 import pdu as P
+        sm.current_state = 5
+        for kind, what in cfg['prefix']:
+            if kind == 'pdu':
+                prov.primitive = P.PDataTfPDU.decode(what)
+                sm.action(9)
+            else:
+                prov.primitive = e2.make_primitive(what)
+                sm.action({'release_rq': 10}[what[0]])
+        env._drain(prov)
     sm.current_state = sta - 1
     t0 = env.clock.now
     if artim:
@@ -97,6 +132,16 @@ def run_cell(cell):
         sm.action(n - 1)
     except Exception as e:  # noqa
         exc = e
+    content_bad = None
+    if cfg.get('expect_data') is not None and sta in (6, 7) and exc is None:
+        items = [i for i in list(getattr(prov.to_service_user, 'queue', [])) if isinstance(i, tuple)]
+        if len(items) == 1:
+            msg, pc = items[0]
+            ds = msg.data_set
+            raw = ds if isinstance(ds, bytes) or ds is None else (ds.seek(0), ds.read())[1]
+            if pc != 3 or type(msg).__name__ != 'CStoreRQMessage' or raw is None or not raw.endswith(cfg['expect_data']) or \
+                    (cfg.get('store_in_file') and isinstance(ds, bytes)) or str(msg.affected_sop_instance_uid) != '1.2.3.4.5':
+                content_bad = (type(msg).__name__, pc, None if raw is None else len(raw), 'bytes' if isinstance(ds, bytes) else type(ds).__name__)
     obs = _observe(env, prov, None)
     where = 'cell %s x Sta%d role=%s artim=%s slot=%s' % (evname, sta, role, artim, label)
     sig = 'c04:%s/Sta%d' % (evname.rstrip('cp') if n != 10 else evname, sta)
@@ -143,6 +188,9 @@ def run_cell(cell):
             viol.append((sig + ':abort-indication-fields', '%s indicated %r for a received A-ABORT (%d, %d)' % (where, obs['inds'][0], user_prim.source, user_prim.reason_diag)))
     elif 'A-ASSOCIATE-RJ' in exp_ind and obs['inds'][0][1:] != (user_prim.result, user_prim.source, user_prim.reason_diag):
         viol.append((sig + ':rj-indication-fields', '%s indicated %r' % (where, obs['inds'][0])))
+    if content_bad is not None:
+        viol.append((sig + ':indication-content', '%s: the P-DATA indication carries %r (message, context, data set bytes, kind); sent was a C-STORE-RQ on '
+                     'context 3 with a %d-byte data set%s' % (where, content_bad, len(cfg['expect_data']), ', to be received into a file' if cfg.get('store_in_file') else '')))
     if ('close' in obs['log']) != ('close' in outs):
         viol.append((sig + ':close', '%s: transport %s, the standard says %s' % (where, 'closed' if 'close' in obs['log'] else 'left open',
                                                                                    'close' if 'close' in outs else 'keep')))
